@@ -38,7 +38,9 @@ type mach struct {
 // Fault kills the callee of the RPC with the given label.
 //
 // Variant: "before" (request never arrives), "after" (handler ran, reply lost),
-// "afterreply" (reply delivered, machine dies concurrently), "mid:<k>" (reply
+// "afterreply" (reply delivered, machine dies concurrently), "replylate" (machine dies
+// after the handler ran; the reply is delivered only once the driver has seen the
+// machine stop), "mid:<k>" (reply
 // body cut after k bytes, machine dead; meaningful for Worker.Read),
 // "neterr" (a transport error for this one call, machine stays alive).
 type Fault struct {
@@ -319,6 +321,24 @@ func (s *System) RoundTrip(req *http.Request) (*http.Response, error) {
 	}
 	if variant == "after" {
 		s.Kill(victim)
+	}
+	if variant == "replylate" {
+		// The handler ran and its reply WILL be delivered, but only after the machine has
+		// died and the driver has noticed (bigmachine state Stopped, plus a moment for
+		// bigslice's per-machine loop to mark the machine and its tasks lost): the window
+		// between a call's completion and the driver recording it.
+		s.Kill(victim)
+		s.mu.Lock()
+		vm := s.machs[victim]
+		s.mu.Unlock()
+		deadline := time.Now().Add(30 * time.Second)
+		for vm != nil && vm.m.State() != bigmachine.Stopped && time.Now().Before(deadline) {
+			time.Sleep(time.Millisecond)
+		}
+		time.Sleep(50 * time.Millisecond)
+		resp := rec.Result()
+		resp.Request = req
+		return resp, nil
 	}
 	if atomic.LoadInt32(&m.dead) == 1 && !strings.HasPrefix(variant, "mid:") {
 		return nil, fmt.Errorf("read %s: connection reset (verifsystem)", host)
